@@ -64,6 +64,15 @@ func (rl *Shell) Readline() (string, error) {
 
 	rl.init()
 
+	// A command that panics must not leave the cursor in the middle of
+	// the input: go below it before the panic goes up to the caller.
+	defer func() {
+		if r := recover(); r != nil {
+			rl.Display.AcceptLine()
+			panic(r)
+		}
+	}()
+
 	// Terminal resize events
 	resize := display.WatchResize(rl.Display)
 	defer close(resize)
